@@ -30,6 +30,7 @@ type Directives struct {
 	MixTTL bool   // ttlm: record i gets TTL+i
 	Opt    bool   // opt: reply carries an OPT with options
 	NsTTL  int64  // nsttl<N>: TTL of the authority and additional records (-1 = same rule as the answers)
+	Pad    int    // pad<N>: one extra TXT answer with exactly N octets of text (N <= 255): response sizes in 1-byte steps
 	Deep   int    // deep<N>: a CNAME chain of nested names followed by N A records owned by a long label under the
 	// deepest name: compresses to ~16 bytes per record with full name compression, but to ~80 bytes per
 	// record for an encoder that bounds the depth of compression pointer chains
@@ -66,6 +67,8 @@ func ParseDirectives(firstLabel string) Directives {
 			d.Kind, d.HTTP = "http", n
 		} else if n, ok := num("big"); ok {
 			d.Big = n
+		} else if n, ok := num("pad"); ok {
+			d.Pad = min(n, 255)
 		} else if n, ok := num("deep"); ok {
 			d.Deep = n
 		} else if n, ok := num("nsttl"); ok {
@@ -258,6 +261,9 @@ func BuildReply(name string, qtype, qclass uint16, tag string, serial uint32, d 
 		if d.N >= 4 {
 			m.Extra = append(m.Extra, &dns.A{Hdr: dns.RR_Header{Name: hostName(s, "ns.test."), Rrtype: dns.TypeA, Class: class, Ttl: nsTTL(d.N + 2)}, A: net.IP(s[8:12]).To4()})
 		}
+	}
+	if d.Pad > 0 {
+		m.Answer = append(m.Answer, &dns.TXT{Hdr: dns.RR_Header{Name: name, Rrtype: dns.TypeTXT, Class: class, Ttl: ttlOf(5000)}, Txt: []string{strings.Repeat("p", d.Pad)}})
 	}
 	if d.Deep > 0 {
 		cur := name
